@@ -295,7 +295,7 @@ pub async fn apply(cx: &Ctx, st: &mut SeqState, op: &Op, unfrozen: bool) -> Resu
             v2v(st.model.pull(s, max, &r), st, &ops)?;
         }
         Op::Ack(s, w) => {
-            let id = pick_id(&st.model, s, &w).unwrap();
+            let id = pick_id(&st.model, s, &w).unwrap_or_else(|| "7777".into());
             let ids = vec![id];
             let i2 = ids.clone();
             let r = call(cx, unfrozen, "client:ack", async move { a.ack(s, i2).await }).await?;
@@ -320,13 +320,13 @@ pub async fn apply(cx: &Ctx, st: &mut SeqState, op: &Op, unfrozen: bool) -> Resu
             v2v(st.model.ack(s, &ids, &r), st, &ops)?;
         }
         Op::Nack(s, w) => {
-            let ids = vec![pick_id(&st.model, s, &w).unwrap()];
+            let ids = vec![pick_id(&st.model, s, &w).unwrap_or_else(|| "7777".into())];
             let i2 = ids.clone();
             let r = call(cx, unfrozen, "client:nack", async move { a.modify(s, i2, 0).await }).await?;
             v2v(st.model.modify(s, &ids, 0, &r), st, &ops)?;
         }
         Op::Mod(s, w, secs) => {
-            let ids = vec![pick_id(&st.model, s, &w).unwrap()];
+            let ids = vec![pick_id(&st.model, s, &w).unwrap_or_else(|| "7777".into())];
             let i2 = ids.clone();
             let r = call(cx, unfrozen, "client:modify", async move { a.modify(s, i2, secs).await }).await?;
             v2v(st.model.modify(s, &ids, secs, &r), st, &ops)?;
